@@ -1,6 +1,6 @@
 (* C19 — Number-theoretic helpers compute what they claim. *)
 From Coq Require Import ZArith List.
-From Gabi Require Import ModArith GoSem MathUtil.
+From Gabi Require Import ModArith GoSem MathUtil Sqrt.
 Import ListNotations.
 Open Scope Z_scope.
 
@@ -60,3 +60,17 @@ Theorem safe_prime_product_bitlen :
   2 ^ (k - 1) + 2 ^ (k - 2) <= p < 2 ^ k -> 2 ^ (k - 1) + 2 ^ (k - 2) <= q < 2 ^ k ->
   2 ^ (2 * k - 1) <= p * q < 2 ^ (2 * k).
 Proof. exact safe_prime_product_bitlen_lem. Qed.
+
+(* Square roots.  Whatever PrimeSqrt returns as a root squares to the input modulo p, for every odd modulus p > 1 (no
+   primality needed for this direction; for a composite p the function may fail to return, which the model shows as
+   running out of fuel) ... *)
+Theorem prime_sqrt_sound :
+  forall p, 1 < p -> forall a r, 0 <= a -> Z.odd p = true -> prime_sqrt a p = Ok (Some r) -> (r * r) mod p = a mod p.
+Proof. exact prime_sqrt_sound_lem. Qed.
+
+(* ... and whatever ModSqrt returns squares to the input modulo the product of the factors (4 or odd numbers above 1; a
+   successful Chinese-remainder step implies the factors are coprime). *)
+Theorem mod_sqrt_sound :
+  forall a factors r, 0 <= a -> Forall good_factor factors -> mod_sqrt a factors = Ok (Some r) ->
+  let N := fold_left Z.mul factors 1 in (r * r) mod N = a mod N.
+Proof. exact mod_sqrt_sound_lem. Qed.
